@@ -22,11 +22,14 @@ type Opts struct {
 	OnlyPtr    bool // only pointer-typed services (identity is observable)
 	FakeWorld  bool // (not Runnable) add imports/aliases/symbols outside fx, prefix-related aliases
 	SimpleVals bool // params restricted to int/str (exact value model)
+	Plain      bool // services: constructor arguments only (no fields/calls/tags/decorators/!value/!tagged)
 }
 
-var paramNames = []string{"alpha", "beta", "db.host", "db.port", "my-param", "x_1", "zeta", "appPort", "q", "k.v-w"}
-var svcNames = []string{"svcA", "svcB", "db", "db.conn", "http-client", "logger", "m_1", "zz", "a", "repo.user", "cache", "n9"}
-var tagNames = []string{"t0", "tag.one", "x-tag"}
+// the pools overlap on purpose (a parameter, a tag and a service may share a name; names may
+// differ only in case): the three namespaces are independent
+var paramNames = []string{"alpha", "Alpha", "db.host", "db.port", "my-param", "x_1", "zeta", "appPort", "q", "db", "logger"}
+var svcNames = []string{"svcA", "svcB", "db", "db.conn", "http-client", "logger", "Logger", "m_1", "zz", "a", "repo.user", "cache", "n9", "t0"}
+var tagNames = []string{"t0", "tag.one", "db"}
 var envKeys = []string{"VSIM_E0", "VSIM_E1", "VSIM_E2"}
 
 func pickName(src *choice.Src, label string, pool []string, used map[string]bool) string {
@@ -99,7 +102,7 @@ func GenCfg(src *choice.Src, o Opts) *Cfg {
 	np := src.Range("nparams", 0, o.MaxParams)
 	for i := 0; i < np; i++ {
 		name := pickName(src, "pname", paramNames, used)
-		c.Params = append(c.Params, Param{Name: name, V: g.paramValue(i)})
+		c.Params = append(c.Params, Param{Name: name, V: g.paramValue(i, name)})
 	}
 
 	// ---- services
@@ -132,6 +135,12 @@ func GenCfg(src *choice.Src, o Opts) *Cfg {
 
 func (g *genState) litArg() Arg {
 	src := g.src
+	if g.o.SimpleVals {
+		if src.Bool("litsimple") {
+			return Arg{Kind: "int", I: int64(src.Range("int", 0, 99))}
+		}
+		return Arg{Kind: "str", S: choice.Pick(src, "str", []string{"hello", "localhost", "a b", "x:y", "v1.2"})}
+	}
 	switch src.Draw("lit", 6) {
 	case 0:
 		return Arg{Kind: "int", I: int64(src.Range("int", -3, 4000))}
@@ -150,7 +159,7 @@ func (g *genState) litArg() Arg {
 }
 
 // paramValue draws the value of parameter number i (may refer to parameters < i).
-func (g *genState) paramValue(i int) Arg {
+func (g *genState) paramValue(i int, name string) Arg {
 	src := g.src
 	kinds := []string{"lit", "lit", "pattern"}
 	if i > 0 {
@@ -181,11 +190,12 @@ func (g *genState) paramValue(i int) Arg {
 	case "todo":
 		ch := Chunk{Kind: "todo"}
 		if src.Bool("todomsg") {
-			ch.HasDef, ch.Def = true, choice.Pick(src, "todomsgv", []string{"in development", "set me at runtime"})
+			ch.HasDef, ch.Def = true, choice.Pick(src, "todomsgv", []string{"in development", "set me at runtime", "not implemented (yet)", "a, b"})
 		}
 		return Arg{Kind: "pattern", Chunks: []Chunk{ch}}
 	case "fn":
-		return Arg{Kind: "pattern", Chunks: []Chunk{{Kind: "fn", S: g.fnName, Def: choice.Pick(src, "fnarg", []string{"k1", "k2", "k3"})}}}
+		// the argument identifies the parameter, so that evaluations can be counted per parameter
+		return Arg{Kind: "pattern", Chunks: []Chunk{{Kind: "fn", S: g.fnName, Def: name}}}
 	}
 	// multi-chunk pattern
 	n := src.Range("nchunks", 2, 4)
@@ -240,7 +250,17 @@ func (g *genState) depArg(nsvc int, allowSvc bool) Arg {
 	if len(g.cfg.Params) > 0 {
 		opts = append(opts, "param", "pattern")
 	}
-	opts = append(opts, "value")
+	if !g.o.Plain {
+		opts = append(opts, "value")
+	} else {
+		var o2 []string
+		for _, x := range opts {
+			if x != "tagged" {
+				o2 = append(o2, x)
+			}
+		}
+		opts = o2
+	}
 	switch choice.Pick(src, "akind", opts) {
 	case "svc":
 		return Arg{Kind: "svc", S: g.cfg.Services[src.Draw("aref", nsvc)].Name}
@@ -297,7 +317,7 @@ func (g *genState) service(name string, i int) Svc {
 	case "leaf":
 		s.Ctor = g.fx("NewLeaf")
 	}
-	if kind != "leaf" {
+	if kind != "leaf" && !g.o.Plain {
 		// fields
 		for _, fn := range []string{"F1", "F2", "f3"} {
 			if src.Chance("sfield", 1, 4) {
@@ -320,7 +340,7 @@ func (g *genState) service(name string, i int) Svc {
 	}
 	// tags
 	for _, t := range tagNames {
-		if src.Chance("stag", 1, 4) {
+		if !g.o.Plain && src.Chance("stag", 1, 4) {
 			tg := Tag{Name: t}
 			if src.Bool("stagprio") {
 				tg.HasPrio, tg.Prio = true, src.Range("stagp", -2, 9)
